@@ -13,4 +13,11 @@ for c in m['checks']:
     except Exception as ex:
         bad += 1
         print(c['property_id'], 'BAD', str(ex)[:200])
+# every stored seeded change must still apply to the current /repo (fix commits may rewrite the lines one touches)
+import subprocess, os
+for d in sorted(glob.glob('/verif/seeded/C*-*m*/')):
+    r = subprocess.run(['git', '-C', '/repo', 'apply', '--check', d + 'patch.diff'], capture_output=True)
+    if r.returncode != 0:
+        bad += 1
+        print('STALE seeded patch', d)
 sys.exit(1 if bad else 0)
